@@ -7,6 +7,7 @@ mod maps;
 mod proto;
 mod rng;
 mod table;
+mod tree;
 
 fn main() {
     let args: Vec<String> = std::env::args().collect();
@@ -23,6 +24,7 @@ fn main() {
         "idx.bindall" => idx::run_bindall(seed, thorough),
         "con" => con::run(seed, thorough),
         "maps" => maps::run(seed, thorough),
+        "tree" => tree::run(seed, thorough),
         _ => {
             eprintln!("unknown stage {stage}");
             std::process::exit(2);
